@@ -654,26 +654,35 @@ example :
 /-- **finding (why the precondition of an exchange batch is part of `guardB`)**: in the state after
     the first seven operations (`2.0`: `{0}`; `3.0 4.0 5.0`: `{0, 2}`; `6.0`: `{2}`) the batch "has
     2: remove 0, add 1" meets its precondition on the table of `{0, 2}` and fails it on the table of
-    `{2}`.  The call panics (`missing`) — AFTER taking the world lock and AFTER creating the table of
-    `{1, 2}` for the first source: the world stays LOCKED (Go's `panic` unwinds past the
-    `unlock`, which is not deferred), so every later structural operation panics `locked`.  No
-    entity is changed.  Such a call is therefore not "rejected without effect", and it is not a
-    step of the machine (`guardB = false`). -/
+    `{2}`.  The call panics (`missing`) — AFTER creating the table of `{1, 2}` for the first source,
+    which stays.  Since the repair of defect D27 (the world lock is taken only after the lookup
+    loop) the world is NOT left locked: the lock state is as before the call, no entity is changed
+    and the next structural operation (`NewEntity`) is accepted — before the repair the panic
+    unwound past the `unlock`, which is not deferred, the world stayed LOCKED and every later
+    structural operation panicked `locked`.  Because of the table left behind such a call is still
+    not "rejected with the world unchanged", and it is not a step of the machine
+    (`guardB = false`).  General statement: `Ark.Props.C07Batch.exchangeBatch_panic_unlocked`. -/
 example :
     guardB (reachB noProbe 2 1 (demoOps.take 7)) (.xchgb .unsafe_ (has [2]) [1] none [0]) = false ∧
     panicOf (execB noProbe (reachB noProbe 2 1 (demoOps.take 7)).w (.xchgb .unsafe_ (has [2]) [1] none [0])) =
       some .missing ∧
     (reachB noProbe 2 1 (demoOps.take 7)).w.isLocked = false ∧
     (execB noProbe (reachB noProbe 2 1 (demoOps.take 7)).w
-      (.xchgb .unsafe_ (has [2]) [1] none [0])).state.isLocked = true ∧
+      (.xchgb .unsafe_ (has [2]) [1] none [0])).state.isLocked = false ∧
+    (execB noProbe (reachB noProbe 2 1 (demoOps.take 7)).w
+      (.xchgb .unsafe_ (has [2]) [1] none [0])).state.locks =
+      (reachB noProbe 2 1 (demoOps.take 7)).w.locks ∧
     (reachB noProbe 2 1 (demoOps.take 7)).w.tables.length = 4 ∧
     (execB noProbe (reachB noProbe 2 1 (demoOps.take 7)).w
       (.xchgb .unsafe_ (has [2]) [1] none [0])).state.tables.length = 5 ∧
     (execB noProbe (reachB noProbe 2 1 (demoOps.take 7)).w
       (.xchgb .unsafe_ (has [2]) [1] none [0])).state.entities =
       (reachB noProbe 2 1 (demoOps.take 7)).w.entities ∧
+    (List.range 8).map (fun i => compsOf (execB noProbe (reachB noProbe 2 1 (demoOps.take 7)).w
+      (.xchgb .unsafe_ (has [2]) [1] none [0])).state i) =
+      (List.range 8).map (fun i => compsOf (reachB noProbe 2 1 (demoOps.take 7)).w i) ∧
     panicOf (execB noProbe (execB noProbe (reachB noProbe 2 1 (demoOps.take 7)).w
-      (.xchgb .unsafe_ (has [2]) [1] none [0])).state (.base .new0)) = some .locked := by
+      (.xchgb .unsafe_ (has [2]) [1] none [0])).state (.base .new0)) = none := by
   decide +kernel
 
 /-- **finding (the empty batch)**: `NewBatch(0, [0, 1, 2])` is accepted, creates no entity and
